@@ -333,13 +333,14 @@ CLAIMED = {
                 "such a directory (C19_written_directory_is_good), hence C19_search_after_writes; the line-limited search returns a "
                 "prefix in write order that is not cut short (C19_find_max_lines_prefix); with the last file torn at any byte of "
                 "its log and its index (a complete index entry whose first line is torn included) both searches return what the completely written part prescribes plus at most one item "
-                "read from the torn line (C19_search_by_time_after_crash, C19_search_max_lines_after_crash). Search results "
+                "read from the torn line (C19_search_by_time_after_crash, C19_search_max_lines_after_crash); after any history, a crash "
+                "at any byte of what one more write issues leaves such a torn directory, losing nothing written earlier and keeping "
+                "exactly the new lines issued completely (C19_crash_point_is_torn, with the two search corollaries). Search results "
                 "(by time range and resource; from a time with a line limit), across roll-overs by size and date and after a "
                 "crash cut, are compared with the model on every run and judged by an executable predicate against the "
                 "directory dump (Spec/C19Spec.v).",
         "design_ref": "DESIGN.md §6 C19",
-        "note": "Partial: that every byte-prefix of the writer's output (with file creations and removals) is a torn directory in the "
-                "sense of the crash theorems is not proved; it is exercised by the crash cases of the correspondence run; each search uses a fresh searcher (the cached "
+        "note": "Partial: a crash inside a roll-over (a write that creates or removes files) is neither proved nor emulated; each search uses a fresh searcher (the cached "
                 "index position is not exercised); a crash is emulated by truncating the files the last write appended to. "
                 "Trusted: Coq kernel + VM (closed under the global context); the harness's own directory listing and index "
                 "decoding; std::fs semantics after flush().",
